@@ -152,6 +152,19 @@ CHECKS = {
          '1 vs 1.0, True vs 1, sign of zero) under the bound name and nothing else.',
     note=TRUSTED + 'json.loads as the reference; only spellings valid in both JSON and ES5.',
     design='DESIGN.md section 3, C19'),
+ 'C18': dict(
+    technique='fault enumeration with instrumented stream doubles: recorded open/read/write/writelines/close event logs checked offline (exactly-once closure, propagation), fault-free runs compared with the printer text and an independently computed map and URL',
+    level='fault_enumeration',
+    text='For each stream arrangement (output factory|open x map none|factory|open|same x absolute|relative|missing names x single|list|'
+         'generator|several nodes x pretty|minify+obfuscate x URL default|None|explicit x path normalisation) one fault-free run of the real '
+         'io.write enumerates every fault point (factory calls, each fragment pulled from the unparser, each write/writelines per stream, the '
+         'JSON serialisation) and one run per fault point injects FaultInjected there; the offline checker requires factory-made streams '
+         'closed exactly once, passed-in streams never closed, and the injected exception object to propagate. Fault-free: output == printer '
+         'text + trailer, URL == independently computed relative path / data URL payload decodes to the map, map JSON == sourcemap.write + '
+         'reference encoding after the same path rule. io.read: sourcepath, closure, syntax errors re-labelled. Every fault point of every '
+         'arrangement explored is enumerated, not sampled (quick: deterministic core + 24 sampled arrangements; thorough: all 1152).',
+    note=TRUSTED + 'the stream doubles of vk/mon/c18.py; behaviour when close() itself raises is not demanded.',
+    design='DESIGN.md section 3, C18'),
 }
 
 PENDING = 'monitor planned in DESIGN.md section 3 but not built yet in this round; no claim is made'
